@@ -391,25 +391,32 @@ fn fqz_harness(ctx: &mut Ctx, name: &str, cases: &[FqzCase]) {
 
 // ---- name tokenizer ------------------------------------------------------------------------------
 
+/// Names chosen to collide token types. noodles tokenises into alphanumeric / non-alphanumeric
+/// runs (letters and digits are *one* token, unlike htscodecs), so digit tokens need a separator:
+/// `a:1` = String, Char, Digits; `a:01` = ..., Digits0 (leading zero, width 2); `a:2` after `a:1` =
+/// Delta; `a:257` = too far for a Delta; `a:001` after `a:01` = different width (no Delta0);
+/// `a1` / `a01` = single String tokens; differing token counts; digit runs beyond u32.
 fn name_alphabet(thorough: bool) -> Vec<Vec<u8>> {
     let mut v: Vec<Vec<u8>> = [
-        "a1", "a01", "a001", "a2", "a10", "b1", "a1:x", "a", "a1:2", "a257", "a0", "7", "a:1:x:2",
+        "a:1", "a:01", "a:001", "a:2", "a:10", "b:1", "a:1:x", "a1", "a", "a:257", "a:0", "7", "a:1:x:2", "a01",
     ]
     .iter()
     .map(|s| s.as_bytes().to_vec())
     .collect();
-    // long digit runs: more digits than a u32 holds, with and without leading zeros
-    let mut long = b"a".to_vec();
+    // long digit run: more digits than a u32 holds
+    let mut long = b"a:".to_vec();
     long.extend(std::iter::repeat_n(b'9', 200));
     v.push(long);
     if thorough {
-        let mut long0 = b"a0".to_vec();
+        let mut long0 = b"a:0".to_vec();
         long0.extend(std::iter::repeat_n(b'1', 30));
         v.push(long0);
-        v.push(b"a4294967295".to_vec());
-        v.push(b"a4294967296".to_vec());
-        v.push(b"a00000000001".to_vec());
-        // more tokens than the format's 128 token positions
+        v.push(b"a:4294967295".to_vec());
+        v.push(b"a:4294967296".to_vec());
+        v.push(b"a:00000000001".to_vec());
+        v.push(b"a:00".to_vec());
+        v.push(b"a:02".to_vec());
+        // more tokens than the format's 128 token positions, and just below
         v.push(std::iter::repeat_n(*b"a:", 70).flatten().collect());
         v.push(std::iter::repeat_n(*b"a:", 62).flatten().collect());
     }
